@@ -125,7 +125,45 @@ def run(repo: Repo, chk: Check, thorough: bool = False) -> None:
     chk.ob('R19.1', f'{VIS}.walkabout :: children loop stops on SkipSiblings', ok,
            'the loop over get_children is inside try/except SkipSiblings' if ok else 'SkipSiblings from a child is not caught around the children loop',
            wa.loc)
-    chk.require('R19.1', 6)
+    # second dimension of the typestate: are the CHILDREN walked?  expected: SkipNode / SkipChildren - no; SkipDeparture / SkipSiblings - yes
+    # (SkipDeparture only suppresses the node's own depart_*).  Decided on the CFG with the boolean flags a handler sets propagated along.
+    EXPECT_CHILDREN = {'SkipNode': False, 'SkipChildren': False, 'SkipDeparture': True, 'SkipSiblings': True}
+
+    def children_reached(fn: Func, cf: CFG, handler: ast.ExceptHandler, loop: ast.For) -> bool:
+        flags = {t.id: n.value.value for st in handler.body for n in ast.walk(st) if isinstance(n, ast.Assign) and isinstance(n.value, ast.Constant) and
+                 isinstance(n.value.value, bool) for t in n.targets if isinstance(t, ast.Name)}
+
+        def known(e: ast.AST) -> Optional[bool]:
+            if isinstance(e, ast.Name) and e.id in flags:
+                return flags[e.id]
+            if isinstance(e, ast.UnaryOp) and isinstance(e.op, ast.Not):
+                k = known(e.operand)
+                return None if k is None else (not k)
+            return None
+        dead = [(nid, id(t), k) for nid, edges in cf.succ.items() for (t, l, k) in edges if l is not None and known(l[0]) is not None and known(l[0]) != l[1]]
+        return id(loop) in cf.reachable(handler, avoid_edges=dead, no_exc=True)
+    for wname in ('walkabout', 'walk'):
+        wf = repo.func(f'{VIS}.{wname}')
+        cw = CFG(wf)
+        vc = [c for c in calls_in(wf) if call_name(c) == 'visit' and dotted(c.func) == 'self.visit']
+        lps = [n for n in wf.walk() if isinstance(n, ast.For) and any(call_name(c) == wname for st in n.body for c in ast.walk(st) if isinstance(c, ast.Call))]
+        if len(vc) != 1 or len(lps) != 1:
+            raise AnalysisError(f'R19.1: Visitor.{wname}: expected one self.visit(...) call and one loop over the children')
+        vs_ = cw.stmt_of(vc[0])
+        for name in sorted(pruning):
+            if wname == 'walk' and name == 'SkipSiblings':
+                continue      # walk() (visit-only traversal, used by tests) lets it propagate to the parent's loop; not part of the walkabout contract
+            h = _exc_flow(wf, vs_, name, repo)
+            if h is None:
+                continue      # reported above for walkabout
+            got = children_reached(wf, cw, h, lps[0])
+            want = EXPECT_CHILDREN[name]
+            chk.ob('R19.1', f'{VIS}.{wname} :: {name} raised by visit() - children {"are" if want else "are not"} walked', got == want,
+                   ('children loop reached after the handler' if got else 'children loop not reached') if got == want else
+                   (f'after `except {", ".join(handler_names(h))}` the loop over the children is not reached any more: a node whose visit raises {name} loses its '
+                    'whole subtree, for the main visitor and every extension' if want else
+                    f'after `except {", ".join(handler_names(h))}` the children are still walked although {name} prunes them'), f'{wf.mod.relpath}:{h.lineno}')
+    chk.require('R19.1', 12)
 
     # ------------------------------------------------------------------ R19.2
     for meth in ('visit', 'depart'):
